@@ -726,7 +726,10 @@ type apiGen struct {
 	r        *rng
 	openSess int64 // session with an open transaction, 0 if none
 	nextSess int64
-	full     bool // full operator grammar (after Match/Apply/Project are merged)
+	full     bool // full operator grammar for everything (model-free oracles)
+	fullF    bool // full filter grammar (Model/Match.v is merged)
+	fullU    bool // full update grammar (after Model/Apply.v is merged)
+	fullP    bool // projections (after Model/Project.v is merged)
 }
 
 func (g *apiGen) id() interface{} {
@@ -884,7 +887,7 @@ func (g *apiGen) fullUpdate() bson.D {
 
 func (g *apiGen) projection() string {
 	r := g.r
-	if !g.full || r.chance(1, 2) {
+	if !(g.full || g.fullP) || r.chance(1, 2) {
 		return "NIL"
 	}
 	switch r.intn(7) {
@@ -905,9 +908,22 @@ func (g *apiGen) projection() string {
 	}
 }
 
+// filterU: the filter of a call that may upsert.  Until Model/Apply.v (Extract)
+// is merged the upsert seed is only modelled for plain equality filters.
+func (g *apiGen) filterU(upsert bool) bson.D {
+	if upsert && !g.full && !g.fullU {
+		save := g.fullF
+		g.fullF = false
+		f := g.filter()
+		g.fullF = save
+		return f
+	}
+	return g.filter()
+}
+
 func (g *apiGen) filter() bson.D {
 	r := g.r
-	if g.full && r.chance(1, 2) {
+	if (g.full || g.fullF) && r.chance(1, 2) {
 		return g.fullFilter(2)
 	}
 	switch r.intn(6) {
@@ -929,7 +945,7 @@ func (g *apiGen) filter() bson.D {
 
 func (g *apiGen) update() bson.D {
 	r := g.r
-	if g.full && r.chance(2, 3) {
+	if (g.full || g.fullU) && r.chance(2, 3) {
 		return g.fullUpdate()
 	}
 	f := pick(r, []string{"a", "b", "c", "_id", "d.e"})
@@ -1043,15 +1059,19 @@ func (g *apiGen) call() string {
 		}
 		return "(insertMany " + s + " " + t + " " + tf(r.chance(1, 2)) + " " + strings.Join(parts, " ") + ")"
 	case k < 34:
-		return "(update " + s + " " + t + " " + pick(r, []string{"one", "many"}) + " " + enc(g.filter()) + " " + enc(g.update()) + " " + tf(r.chance(1, 3)) + " ())"
+		up := r.chance(1, 3)
+		return "(update " + s + " " + t + " " + pick(r, []string{"one", "many"}) + " " + enc(g.filterU(up)) + " " + enc(g.update()) + " " + tf(up) + " ())"
 	case k < 40:
-		return "(replace " + s + " " + t + " " + enc(g.filter()) + " " + enc(g.doc(r.chance(1, 3))) + " " + tf(r.chance(1, 3)) + ")"
+		up := r.chance(1, 3)
+		return "(replace " + s + " " + t + " " + enc(g.filterU(up)) + " " + enc(g.doc(r.chance(1, 3))) + " " + tf(up) + ")"
 	case k < 46:
 		return "(delete " + s + " " + t + " " + pick(r, []string{"one", "many"}) + " " + enc(g.filter()) + ")"
 	case k < 50:
-		return "(fau " + s + " " + t + " " + enc(g.filter()) + " " + enc(g.update()) + " " + g.sortSpec() + " " + g.projection() + " " + tf(r.chance(1, 3)) + " " + tf(r.chance(1, 2)) + " ())"
+		up := r.chance(1, 3)
+		return "(fau " + s + " " + t + " " + enc(g.filterU(up)) + " " + enc(g.update()) + " " + g.sortSpec() + " " + g.projection() + " " + tf(up) + " " + tf(r.chance(1, 2)) + " ())"
 	case k < 53:
-		return "(far " + s + " " + t + " " + enc(g.filter()) + " " + enc(g.doc(r.chance(1, 3))) + " " + g.sortSpec() + " " + g.projection() + " " + tf(r.chance(1, 3)) + " " + tf(r.chance(1, 2)) + ")"
+		up := r.chance(1, 3)
+		return "(far " + s + " " + t + " " + enc(g.filterU(up)) + " " + enc(g.doc(r.chance(1, 3))) + " " + g.sortSpec() + " " + g.projection() + " " + tf(up) + " " + tf(r.chance(1, 2)) + ")"
 	case k < 56:
 		return "(fad " + s + " " + t + " " + enc(g.filter()) + " " + g.sortSpec() + " " + g.projection() + ")"
 	case k < 60:
@@ -1062,9 +1082,11 @@ func (g *apiGen) call() string {
 			case 0:
 				ops = append(ops, "(ins "+enc(g.doc(true))+")")
 			case 1:
-				ops = append(ops, "(rep "+enc(g.filter())+" "+enc(g.doc(r.chance(1, 3)))+" "+tf(r.chance(1, 3))+")")
+				up := r.chance(1, 3)
+				ops = append(ops, "(rep "+enc(g.filterU(up))+" "+enc(g.doc(r.chance(1, 3)))+" "+tf(up)+")")
 			case 2:
-				ops = append(ops, "(upd "+pick(r, []string{"one", "many"})+" "+enc(g.filter())+" "+enc(g.update())+" "+tf(r.chance(1, 3))+" ())")
+				up := r.chance(1, 3)
+				ops = append(ops, "(upd "+pick(r, []string{"one", "many"})+" "+enc(g.filterU(up))+" "+enc(g.update())+" "+tf(up)+" ())")
 			default:
 				ops = append(ops, "(del "+pick(r, []string{"one", "many"})+" "+enc(g.filter())+")")
 			}
@@ -1130,7 +1152,7 @@ func genAPI(r *rng) string { return genAPIMode(r, false) }
 func genAPIFull(r *rng) string { return genAPIMode(r, true) }
 
 func genAPIMode(r *rng, full bool) string {
-	g := &apiGen{r: r, full: full}
+	g := &apiGen{r: r, full: full, fullF: true}
 	n := 5 + r.intn(30)
 	parts := []string{"api", "0"}
 	for i := 0; i < n; i++ {
